@@ -84,6 +84,10 @@ def corpus():
             dict(cfg=dict(shape='blog', strategy='subquery'),
                  prog=base + [['add', 2, 2, {'a': 1}], ['link', 1, 1], ['link', 1, 2], ['commit'], ['del', 0, 1],
                               ['add', 0, 1, {'a': 5}], ['link', 1, 1], ['commit'], ['unlink', 1, 1], ['commit']]),
+            # a Core INSERT that gives one column inline and the other as an execution parameter
+            dict(cfg=dict(shape='blog', strategy='validity'),
+                 prog=base + [['add', 2, 2, {'a': 1}], ['set', 0, 1, {'a': 2}], ['flush'], ['rawlink_mixed', 1, 1], ['rawlink_mixed', 1, 2],
+                              ['set', 0, 1, {'a': 3}], ['commit'], ['unlink', 1, 1], ['commit']]),
             # association statements while the unit of work exists but has no transaction record yet (a flush of
             # nothing but a non-versioned object came first); the record is created by a later flush
             dict(cfg=dict(shape='blog', strategy='validity'),
